@@ -71,9 +71,19 @@ class Ctx:
     def fail(self, family, what, case, expected=None, actual=None, key=None):
         self.failures.append(dict(family=family, what=what, case=case, expected=expected, actual=actual, key=key))
 
-def decide(ctx, ob, falsifier):
+def decide(ctx, ob, falsifier, absolute=False):
     """returns exit code; prints VIOLATION / KNOWN-FINDING lines"""
     pid = ctx.pid
+    proved = ob["obligations"] and not ob["broken"] and not all(t.endswith(".placeholder") for t in ob["obligations"])
+    if absolute and proved and ctx.disagreements and not ctx.failures:
+        # The property says "the code equals the reference"; the theorems (all discharged) say the model equals
+        # the reference on every input, so an input on which code and model differ is a failing input of the property.
+        for d in ctx.disagreements[:20]:
+            if d["family"] in ("build", "tie-crash", "hooks"):
+                continue
+            ctx.fail(d["family"], f"`{d['cmd'][:60]}`: the real code returns a value different from the reference "
+                     f"(the Lean model, proved equal to the reference for every input)", d["case"],
+                     expected=d["model"][:200], actual=d["impl"][:200])
     known = [k for k in known_findings() if k.get("property") == pid and k.get("status") == "known"]
     broken = ob["broken"]
     if (broken or ctx.disagreements) and falsifier and not ctx.failures:
@@ -172,7 +182,7 @@ def main():
             ctx.disagreements.append(dict(family="tie-crash", case=[repr(e)], line=0, cmd="-", impl="-", model="-"))
 
     # 3. decision
-    rc, nviol, known_hits = decide(ctx, ob, spec.get("falsifier"))
+    rc, nviol, known_hits = decide(ctx, ob, spec.get("falsifier"), spec.get("absolute", False))
 
     # 4. evidence
     cov = dict(
